@@ -171,6 +171,8 @@ pub struct Run {
     pub exhaustive: bool,
     pub parts: Vec<Value>,
     pub inconclusive: Vec<String>,
+    /// set when the machinery could not decide at all (exit 2 unless a violation was found)
+    pub undecided: Option<String>,
 }
 
 pub const MAX_SAMPLES: usize = 14;
@@ -203,6 +205,7 @@ impl Run {
             exhaustive: false,
             parts: Vec::new(),
             inconclusive: Vec::new(),
+            undecided: None,
         }
     }
 
@@ -399,10 +402,13 @@ impl Run {
             self.tolerated_known,
             wall
         );
-        if unknown.is_empty() {
-            0
-        } else {
+        if !unknown.is_empty() {
             1
+        } else if let Some(u) = &self.undecided {
+            println!("INCONCLUSIVE property={}: {} (exit 2, not a violation)", self.id, u);
+            2
+        } else {
+            0
         }
     }
 }
